@@ -18,10 +18,15 @@ D1 == {B(k, a, b) : k \in Bin, a, b \in Sub(Atoms, 10)} \cup {U("neg", a) : a \i
 D2 == {B(k, a, b) : k \in Bin, a \in Sub(D1, 24), b \in Sub(D1 \cup Atoms, 24)} \cup {U("neg", a) : a \in Sub(D1, 30)} \cup {U(f, a) : f \in {"sin", "sqrt", "exp", "abs"}, a \in Sub(D1, 20)}
       \cup {B("pow", B("pow", a, b), c) : a \in {x, TInt(2), B("add", x, y)}, b \in {TInt(2), TRat(1, 2), y, TInt(-1)}, c \in {TRat(1, 2), TInt(3), x, TRat(-1, 3)}}
       \cup {B("mul", c, a) : c \in {TInt(-1), TInt(-2), TRat(-1, 2), TI, TComplex(TInt(0), TInt(-1)), TComplex(TInt(1), TInt(1))}, a \in Sub(D1, 12)}
+\* every kind of number as the base and as the exponent of a power that stays a power, in every embedding
+NumB == {TI, TComplex(TInt(0), TInt(-1)), TComplex(TInt(0), TInt(2)), TComplex(TInt(0), TInt(-2)), TComplex(TInt(0), TRat(-1, 2)), TComplex(TInt(1), TInt(1)), TComplex(TInt(-1), TInt(-1)),
+         TComplex(TInt(2), TInt(-3)), TInt(-1), TInt(-2), TInt(2), TRat(-1, 2), TRat(1, 2), TRat(3, 2), TDbl(1, 1, -1), TDbl(-1, 1, -2), TCDbl(TDbl(1, 1, 0), TDbl(-1, 1, 0))}
+NumP == {B("pow", n, e) : n \in NumB, e \in {x, TRat(1, 3), TRat(-1, 3), B("add", y, TInt(1))}} \cup {B("pow", x, n) : n \in NumB} \cup {B("pow", B("add", x, y), n) : n \in NumB}
+NumE == UNION {{p, B("add", y, p), B("sub", y, p), U("neg", p), U("sin", p), B("pow", TInt(2), p), B("pow", p, y), B("mul", TInt(2), p), B("mul", x, p), B("div", TInt(1), p), B("div", y, p)} : p \in NumP}
 Rel == {B(r, a, b) : r \in {"Lt", "Le", "Eq", "Ne"}, a \in {x, B("add", x, TInt(1)), TInt(2)}, b \in {y, TInt(0), B("mul", TInt(2), y)}}
 Log == {TOp(k, <<a, b>>) : k \in {"and", "or", "xor"}, a, b \in Sub(Rel, 5)} \cup {U("not", a) : a \in Sub(Rel, 5)} \cup {T("True", <<>>, "", 0, 0), T("False", <<>>, "", 0, 0)}
 Swap(t) == IF t.k \in Comm /\ Len(t.a) = 2 THEN <<t, TOp(t.k, <<t.a[2], t.a[1]>>)>> ELSE <<t>>
-Cases == {[op |-> "pp", ts |-> Swap(t)] : t \in Atoms \cup D1 \cup Sub(D2, 700) \cup Rel \cup Log}
+Cases == {[op |-> "pp", ts |-> Swap(t)] : t \in Atoms \cup Sub(NumE, 900) \cup D1 \cup Sub(D2, 700) \cup Rel \cup Log}
          \cup {[op |-> "pp", ts |-> <<TOp("add", <<a, b, c>>), TOp("add", <<c, a, b>>), TOp("add", <<b, c, a>>)>>] : a, b, c \in Sub(D1, 6)}
          \cup {[op |-> "pp", ts |-> <<TOp("mul", <<a, b, c>>), TOp("mul", <<c, b, a>>)>>] : a, b, c \in Sub(D1, 6)}
 ASSUME PrintT(<<"cases", Cardinality(Cases)>>)
